@@ -937,6 +937,28 @@ impl<'a, 'e, 'ast> Visit<'ast> for Rewriter<'a, 'e> {
         }
         // R14: (0..N).map(|_| C).collect()  ->  shim_fill_vec(N, C)
         else if name == "collect" && m.args.is_empty() {
+            // R31: E.map(|(_, v)| *v).collect()  ->  shim_collect_values(E)    (the values of a map iterator, copied into a Vec)
+            if let Some((inner, margs)) = Self::is_method(&m.receiver, "map", 1) {
+                if let syn::Expr::Closure(c) = &margs[0] {
+                    let mut ok = false;
+                    if c.inputs.len() == 1 {
+                        if let syn::Pat::Tuple(t) = &c.inputs[0] {
+                            if t.elems.len() == 2 && matches!(t.elems[0], syn::Pat::Wild(_)) {
+                                if let (syn::Pat::Ident(pi), syn::Expr::Unary(u)) = (&t.elems[1], &*c.body) {
+                                    if matches!(u.op, syn::UnOp::Deref(_)) && matches!(&*u.expr, syn::Expr::Path(p) if p.path.is_ident(&pi.ident)) { ok = true; }
+                                }
+                            }
+                        }
+                    }
+                    if ok {
+                        let pieces = vec![Self::lit("shim_collect_values("), self.sub(inner.span()), Self::lit(")")];
+                        self.ed.replace(a, b, pieces, "R31");
+                        self.fire("R31");
+                        self.visit_expr(&inner);
+                        return;
+                    }
+                }
+            }
             if let Some((inner, margs)) = Self::is_method(&m.receiver, "map", 1) {
                 let mut rg: &syn::Expr = &inner;
                 while let syn::Expr::Paren(p) = rg { rg = &p.expr; }
